@@ -681,9 +681,9 @@ func init() {
 			}
 			runConcChecks(c, "C18", drivers, 2, 0)
 			// sequence search
-			d := 3
+			d := 4
 			if !quick {
-				d = 4
+				d = 5
 			}
 			var specs []seqSpec
 			for _, cfg := range []string{"flushy/bytewise", "default/bytewise", "bigbatch/bytewise"} {
